@@ -149,7 +149,10 @@ class C01(Prop):
             if bucket == 'user' and ev.Ux[j] is not None and ev.Umax[j] is not None:
                 rho2 = ev.analyses[j].rho_cert / 2.0
                 s_cert = ev.analyses[j].scale(n, rho2, rho2)      # size of f^(n) on the certified disc
-                asym = bool(s_cert and math.isfinite(s_cert) and ev.Umax[j][0] <= ASYMPTOTIC * s_cert)
+                # ... and rounding must be negligible in every window (below the extrapolated unit):
+                # among rounding-dominated estimates the library's choice is not the best window
+                asym = bool(s_cert and math.isfinite(s_cert) and ev.Umax[j][0] <= ASYMPTOTIC * s_cert
+                            and ev.Rmax[j] is not None and ev.Rmax[j] <= ev.Ux[j][0])
             if asym:
                 rx = excess / ev.Ux[j][0] if ev.Ux[j][0] > 0 else (0.0 if excess == 0 else math.inf)
                 ctx.track('err/U_x|asymptotic user|%s' % method, rx,
